@@ -70,6 +70,8 @@ var e2Exceptions = map[string]string{
 	"netpol/eval.(*PolicyEngine).allAllowedConnectionsBetweenPeers: assertion srcPeer.(k8s.Peer) [N7]":                                     "callers pass only *k8s.PodPeer (converted) or IP peers under IsPeerIPType (checked by rule E2-N7-callers)",
 	"netpol/eval.(*PolicyEngine).allAllowedConnectionsBetweenPeers: assertion dstPeer.(k8s.Peer) [N7]":                                     "callers pass only *k8s.PodPeer (converted) or IP peers under IsPeerIPType (checked by rule E2-N7-callers)",
 	"netpol/diff.(mapListConnPairs).mergeBySrcOrDstIPPeers: constant index srcOrdstIPgroup[0] [N8]":                                        "srcOrdstIPgroup ranges over the values of a map whose entries are created only by append of one element (diffMap.update / addConnsPair), hence non-empty",
+	"netpol/eval.(*PolicyEngine).insertWorkload: podObj (declared without initialiser and assigned only by a range loop that may not run) passed to netpol/eval.(*PolicyEngine).removeRedundantRepresentativePeers (dereferenced there) [N4]": "PodsFromWorkloadObject returns a slice of numReplicas pods and numReplicas is only ever the constant 1 or 2, so the loop runs at least once (checked by rule E2-N4-len)",
+	"netpol/connlist/internal/ingressanalyzer.(*IngressAnalyzer).getIngressPeerConnection: deref of peerTCPConn (alias of result of netpol/eval.GetPeerExposedTCPConnections (returns nil at pkg/netpol/eval/check.go:183) [N11]) [N11]": "GetPeerExposedTCPConnections returns nil only for IP peers and unknown peer types; the peers here are the values stored by mapServiceToPeers, which come from GetSelectedPeers and are *k8s.WorkloadPeer (E2-N7-store)",
 	"netpol/eval.(*PolicyEngine).getPoliciesSelectingPod: assertion peer.(*k8s.PodPeer) [N7]":           "dominated by the PeerType()==IPBlockType early return; the only non-IP implementation of k8s.Peer is *PodPeer",
 }
 
@@ -83,11 +85,13 @@ type nilAnalysis struct {
 	peerType map[*types.Func]bool
 	n2       map[*types.Var]string
 	counts   map[string]int
+	mayNil   map[*types.Func]map[int]string // result index -> witness: may be nil on a non-error return (N11)
+	nilGuard map[*types.Func]map[int]int    // result index -> index of the bool result that is false whenever the nil is returned (-1: none)
 }
 
 // NilGuards runs E2 over all production packages.
 func NilGuards(p *core.Program, r *core.Report) {
-	a := &nilAnalysis{p: p, r: r, requires: map[*types.Func]map[string]string{}, getters: map[*types.Func]bool{}, peerType: map[*types.Func]bool{}, n2: map[*types.Var]string{}, counts: map[string]int{}}
+	a := &nilAnalysis{p: p, r: r, nilGuard: map[*types.Func]map[int]int{}, mayNil: map[*types.Func]map[int]string{}, requires: map[*types.Func]map[string]string{}, getters: map[*types.Func]bool{}, peerType: map[*types.Func]bool{}, n2: map[*types.Var]string{}, counts: map[string]int{}}
 	a.resolve()
 	// pass 1: requires-summaries to a fixpoint
 	for iter := 0; iter < 12; iter++ {
@@ -176,17 +180,87 @@ type nilFunc struct {
 	defs    map[types.Object]ast.Expr // single-assignment definitions of locals (for N9 validation idioms)
 	stores  map[string]bool           // m[k] = ... stores seen so far in the function (N5 store-then-use), by printed lvalue
 	okVars  map[types.Object]string   // ok variable of `v, ok := m[k]` -> printed m[k]
+	seedKind    map[types.Object]string
+	// idiom `if e != nil { errVar = e; v = nil }`: v is nil only together with a non-nil errVar
+	nilImpliesErr map[types.Object]types.Object
+	guardVar    map[types.Object]types.Object // N11: bool variable that is true whenever the value is non-nil
+	rangeReseed map[*ast.RangeStmt]reseed
 	valVars map[types.Object]types.Object // value variable of the same comma-ok -> ok variable
 	coErrObjs map[types.Object]types.Object
 }
 
+// correlatedNilAssignments recognises `if e != nil { errVar = e; v = nil }`.
+func correlatedNilAssignments(fd *core.FuncDecl) map[types.Object]types.Object {
+	info := fd.Pkg.TypesInfo
+	out := map[types.Object]types.Object{}
+	// candidates; a variable assigned nil anywhere else loses the correlation
+	nilAssigns := map[types.Object]int{}
+	ast.Inspect(fd.Decl.Body, func(n ast.Node) bool {
+		if as, ok := n.(*ast.AssignStmt); ok && len(as.Lhs) == len(as.Rhs) {
+			for i, l := range as.Lhs {
+				if id, ok := l.(*ast.Ident); ok && core.IsNil(info, as.Rhs[i]) {
+					nilAssigns[info.ObjectOf(id)]++
+				}
+			}
+		}
+		return true
+	})
+	ast.Inspect(fd.Decl.Body, func(n ast.Node) bool {
+		ifs, ok := n.(*ast.IfStmt)
+		if !ok {
+			return true
+		}
+		be, ok := ast.Unparen(ifs.Cond).(*ast.BinaryExpr)
+		if !ok || be.Op != token.NEQ || !core.IsNil(info, be.Y) {
+			return true
+		}
+		cid, ok := ast.Unparen(be.X).(*ast.Ident)
+		if !ok || !core.IsErrorType(info.TypeOf(cid)) {
+			return true
+		}
+		var errVar types.Object
+		var nils []types.Object
+		for _, st := range ifs.Body.List {
+			as, ok := st.(*ast.AssignStmt)
+			if !ok || len(as.Lhs) != 1 || len(as.Rhs) != 1 || as.Tok != token.ASSIGN {
+				continue
+			}
+			lid, ok := as.Lhs[0].(*ast.Ident)
+			if !ok {
+				continue
+			}
+			if rid, ok := ast.Unparen(as.Rhs[0]).(*ast.Ident); ok && info.ObjectOf(rid) == info.ObjectOf(cid) {
+				errVar = info.ObjectOf(lid)
+			}
+			if core.IsNil(info, as.Rhs[0]) {
+				nils = append(nils, info.ObjectOf(lid))
+			}
+		}
+		if errVar != nil {
+			for _, v := range nils {
+				if nilAssigns[v] == 1 {
+					out[v] = errVar
+				}
+			}
+		}
+		return true
+	})
+	return out
+}
+
+type reseed struct {
+	o   types.Object
+	why string
+}
+
 func (a *nilAnalysis) analyse(fd *core.FuncDecl) {
-	f := &nilFunc{a: a, fd: fd, info: fd.Pkg.TypesInfo, params: map[types.Object]int{}, seeded: map[types.Object]string{}, coErr: map[types.Object]string{},
+	f := &nilFunc{a: a, fd: fd, guardVar: map[types.Object]types.Object{}, seedKind: map[types.Object]string{}, rangeReseed: map[*ast.RangeStmt]reseed{}, info: fd.Pkg.TypesInfo, params: map[types.Object]int{}, seeded: map[types.Object]string{}, coErr: map[types.Object]string{},
 		defs: map[types.Object]ast.Expr{}, stores: map[string]bool{}, okVars: map[types.Object]string{}, valVars: map[types.Object]types.Object{}}
 	sig := fd.Obj.Type().(*types.Signature)
 	for i := 0; i < sig.Params().Len(); i++ {
 		f.params[sig.Params().At(i)] = i
 	}
+	f.nilImpliesErr = correlatedNilAssignments(fd)
 	w := facts.NewWalker(f.info)
 	f.w = w
 	w.Atomize = f.atomize
@@ -195,6 +269,9 @@ func (a *nilAnalysis) analyse(fd *core.FuncDecl) {
 		case *ast.BlockStmt, *ast.IfStmt, *ast.ForStmt, *ast.RangeStmt, *ast.SwitchStmt, *ast.TypeSwitchStmt, *ast.LabeledStmt:
 		default:
 			f.curStmt = s
+		}
+		if ret, ok := s.(*ast.ReturnStmt); ok && w.FuncLitDepth == 0 {
+			f.recordNilReturns(ret, fm)
 		}
 		if ds, ok := s.(*ast.DeclStmt); ok {
 			if gd, ok := ds.Decl.(*ast.GenDecl); ok && gd.Tok == token.VAR {
@@ -211,13 +288,116 @@ func (a *nilAnalysis) analyse(fd *core.FuncDecl) {
 				}
 			}
 		}
-		if rs, ok := s.(*ast.RangeStmt); ok {
-			f.rangeDeref(rs, fm)
+		if rs, ok := s.(*ast.RangeStmt); ok && rs.Tok == token.ASSIGN {
+			// for _, x = range xs: inside the body x is an element; after the loop it still holds its previous value if xs was empty
+			if id, ok := rs.Value.(*ast.Ident); ok {
+				if o := f.info.ObjectOf(id); o != nil {
+					if why, was := f.seeded[o]; was {
+						delete(f.seeded, o)
+						f.rangeReseed[rs] = reseed{o, why + " and assigned only by a range loop that may not run"}
+					}
+				}
+			}
+		}
+	}
+	w.OnLoopBodyEnd = func(loop ast.Stmt, states uint64, fm facts.Formula) {
+		if rs, ok := loop.(*ast.RangeStmt); ok {
+			if rsd, ok := f.rangeReseed[rs]; ok {
+				f.seeded[rsd.o] = rsd.why
+			}
 		}
 	}
 	w.OnAssign = f.onAssign
 	w.OnExpr = f.onExpr
 	w.WalkBody(fd.Decl.Body, nil)
+}
+
+// recordNilReturns: N11 summary - which results may be nil when the function returns without an error.
+func (f *nilFunc) recordNilReturns(ret *ast.ReturnStmt, fm facts.Formula) {
+	sig := f.fd.Obj.Type().(*types.Signature)
+	res := sig.Results()
+	if len(ret.Results) == 1 && res.Len() > 1 {
+		// return g(...): forwards g's results, including its nil-on-success summary
+		if call, ok := ast.Unparen(ret.Results[0]).(*ast.CallExpr); ok {
+			if fn := core.Callee(f.info, call); fn != nil {
+				for _, g := range f.a.p.Impls(fn) {
+					for i, why := range f.a.mayNil[g] {
+						m := f.a.mayNil[f.fd.Obj]
+						if m == nil {
+							m = map[int]string{}
+							f.a.mayNil[f.fd.Obj] = m
+						}
+						if _, ok := m[i]; !ok {
+							m[i] = "forwards " + core.FuncKey(g) + ", which " + why
+							f.a.changed = true
+							if f.a.nilGuard[f.fd.Obj] == nil {
+								f.a.nilGuard[f.fd.Obj] = map[int]int{}
+							}
+							f.a.nilGuard[f.fd.Obj][i] = f.a.nilGuard[g][i]
+						}
+					}
+				}
+			}
+		}
+		return
+	}
+	if len(ret.Results) != res.Len() || res.Len() == 0 {
+		return
+	}
+	if IsErrorReturn(f.a.p, f.w, f.fd.Obj, ret, fm) {
+		return
+	}
+	for i, e := range ret.Results {
+		t := res.At(i).Type()
+		if core.IsErrorType(t) || !isNilable(t) {
+			continue
+		}
+		why := ""
+		e = ast.Unparen(e)
+		if id, ok := e.(*ast.Ident); ok {
+			if ev, ok := f.nilImpliesErr[f.info.ObjectOf(id)]; ok {
+				if lid, ok := ast.Unparen(ret.Results[len(ret.Results)-1]).(*ast.Ident); ok && f.info.ObjectOf(lid) == ev {
+					continue // nil only together with the non-nil error returned alongside
+				}
+			}
+		}
+		switch {
+		case core.IsNil(f.info, e):
+			why = "returns nil at " + f.a.p.Pos(ret.Pos())
+		default:
+			if kind, desc := f.source(e, fm); (kind == "N4" || kind == "N11") && !f.nonNil(e, kind, fm) {
+				why = "returns " + desc + " at " + f.a.p.Pos(ret.Pos())
+			}
+		}
+		if why == "" {
+			continue
+		}
+		// correlated flag: the nil is returned together with a constant false in a bool result
+		guard := -1
+		for j, e2 := range ret.Results {
+			if b, ok := res.At(j).Type().Underlying().(*types.Basic); ok && b.Kind() == types.Bool {
+				if v, ok := core.ConstString(f.info, e2); ok && v == "false" {
+					guard = j
+				}
+			}
+		}
+		m := f.a.mayNil[f.fd.Obj]
+		if m == nil {
+			m = map[int]string{}
+			f.a.mayNil[f.fd.Obj] = m
+		}
+		if _, ok := m[i]; !ok {
+			m[i] = why
+			f.a.changed = true
+			if f.a.nilGuard[f.fd.Obj] == nil {
+				f.a.nilGuard[f.fd.Obj] = map[int]int{}
+			}
+			f.a.nilGuard[f.fd.Obj][i] = guard
+		} else if g, ok := f.a.nilGuard[f.fd.Obj][i]; ok && g != guard && g != -1 {
+			f.a.nilGuard[f.fd.Obj][i] = -1 // not every nil return carries the same flag
+			f.a.changed = true
+		}
+	}
 }
 
 func isNilable(t types.Type) bool {
@@ -307,7 +487,11 @@ func (f *nilFunc) onAssign(lhs, rhs ast.Expr, st ast.Stmt, fm facts.Formula) {
 	} else {
 		f.defs[o] = nil // assigned more than once
 	}
+	if _, isDecl := st.(*ast.DeclStmt); isDecl && rhs == nil {
+		return // `var x *T`: stays nil-seeded (recorded by OnStmt)
+	}
 	delete(f.seeded, o)
+	delete(f.seedKind, o)
 	delete(f.coErr, o)
 	if rhs == nil {
 		return
@@ -316,6 +500,25 @@ func (f *nilFunc) onAssign(lhs, rhs ast.Expr, st ast.Stmt, fm facts.Formula) {
 		// multi-value forms
 		switch rx := ast.Unparen(as.Rhs[0]).(type) {
 		case *ast.CallExpr:
+			// N11: result #i of a callee that may return nil on success
+			if fn := core.Callee(f.info, rx); fn != nil {
+				for i, l := range as.Lhs {
+					if l != lhs {
+						continue
+					}
+					for _, g := range f.a.p.Impls(fn) {
+						if why, ok := f.a.mayNil[g][i]; ok && isNilable(o.Type()) {
+							f.seeded[o] = "result #" + fmt.Sprint(i) + " of " + core.FuncKey(g) + ", which " + why + " without an error"
+							f.seedKind[o] = "N11"
+							if gi, ok := f.a.nilGuard[g][i]; ok && gi >= 0 && gi < len(as.Lhs) {
+								if gid, ok := as.Lhs[gi].(*ast.Ident); ok && gid.Name != "_" {
+									f.guardVar[o] = f.info.ObjectOf(gid)
+								}
+							}
+						}
+					}
+				}
+			}
 			// v, err := f()
 			last := as.Lhs[len(as.Lhs)-1]
 			if lid, ok := last.(*ast.Ident); ok && lid.Name != "_" && core.IsErrorType(f.info.TypeOf(lid)) && id != lid && isNilable(o.Type()) {
@@ -345,6 +548,9 @@ func (f *nilFunc) onAssign(lhs, rhs ast.Expr, st ast.Stmt, fm facts.Formula) {
 	if kind, desc := f.source(rhs, fm); kind != "" && isNilable(o.Type()) {
 		if !f.nonNil(rhs, kind, fm) {
 			f.seeded[o] = "alias of " + desc + " [" + kind + "]"
+			if kind == "N11" {
+				f.seedKind[o] = "N11"
+			}
 		}
 	}
 }
@@ -366,6 +572,9 @@ func (f *nilFunc) source(e ast.Expr, fm facts.Formula) (kind, desc string) {
 		}
 		o := f.info.ObjectOf(x)
 		if why, ok := f.seeded[o]; ok {
+			if k := f.seedKind[o]; k != "" {
+				return k, x.Name + " (" + why + ")"
+			}
 			return "N4", x.Name + " (" + why + ")"
 		}
 		if okObj, ok := f.valVars[o]; ok && okObj != nil {
@@ -388,6 +597,13 @@ func (f *nilFunc) source(e ast.Expr, fm facts.Formula) (kind, desc string) {
 		if fn := core.Callee(f.info, x); fn != nil && f.a.getters[fn] {
 			if se, ok := x.Fun.(*ast.SelectorExpr); ok {
 				return "N3", core.ExprStr(se.X) + "." + fn.Name() + "()"
+			}
+		}
+		if fn := core.Callee(f.info, x); fn != nil {
+			for _, g := range f.a.p.Impls(fn) {
+				if why, ok := f.a.mayNil[g][0]; ok && g.Type().(*types.Signature).Results().Len() == 1 {
+					return "N11", "result of " + core.FuncKey(g) + " (" + why + ")"
+				}
 			}
 		}
 	case *ast.IndexExpr:
@@ -427,6 +643,12 @@ func (f *nilFunc) nonNil(e ast.Expr, kind string, fm facts.Formula) bool {
 		}
 	case "N5":
 		return f.mapLookupSafe(e.(*ast.IndexExpr), fm)
+	case "N11":
+		if id, ok := e.(*ast.Ident); ok {
+			if gv, ok := f.guardVar[f.info.ObjectOf(id)].(*types.Var); ok {
+				return facts.Entails(fm, facts.Atom("b:"+f.w.PathOfVar(gv)))
+			}
+		}
 	case "N5v":
 		if id, ok := e.(*ast.Ident); ok {
 			if okObj, ok := f.valVars[f.info.ObjectOf(id)].(*types.Var); ok {
@@ -504,7 +726,13 @@ func (f *nilFunc) addRequires(idx int, suffix, witness string) {
 // deref handles one dereference of target t.
 func (f *nilFunc) deref(t ast.Expr, at ast.Node, fm facts.Formula) {
 	t = ast.Unparen(t)
-	if _, isPtr := f.info.TypeOf(t).Underlying().(*types.Pointer); !isPtr {
+	tt := f.info.TypeOf(t)
+	if tt == nil {
+		return
+	}
+	_, isPtr := tt.Underlying().(*types.Pointer)
+	_, isIface := tt.Underlying().(*types.Interface)
+	if !isPtr && !isIface {
 		return
 	}
 	kind, desc := f.source(t, fm)
@@ -562,6 +790,8 @@ func kindDoc(kind string) string {
 		return "nil literal or local that is nil on some path"
 	case "N5", "N5v":
 		return "map lookup of a key that may be absent yields nil"
+	case "N11":
+		return "result of a function that returns nil without an error on some path"
 	}
 	return kind
 }
@@ -592,18 +822,18 @@ func (f *nilFunc) checkCoErr(id *ast.Ident, at ast.Node, fm facts.Formula) {
 	}
 }
 
-func (f *nilFunc) rangeDeref(rs *ast.RangeStmt, fm facts.Formula) {
-	// range over *p handled through the StarExpr visit
-}
-
 func (f *nilFunc) onExpr(e ast.Expr, fm facts.Formula) {
 	switch x := e.(type) {
 	case *ast.StarExpr:
 		f.deref(x.X, x, fm)
 	case *ast.SelectorExpr:
 		if sel := f.info.Selections[x]; sel != nil {
-			if _, isPtr := f.info.TypeOf(x.X).Underlying().(*types.Pointer); isPtr {
-				f.deref(x.X, x, fm)
+			if xt := f.info.TypeOf(x.X); xt != nil {
+				if _, isPtr := xt.Underlying().(*types.Pointer); isPtr {
+					f.deref(x.X, x, fm)
+				} else if _, isIface := xt.Underlying().(*types.Interface); isIface && sel.Kind() == types.MethodVal {
+					f.deref(x.X, x, fm) // a method call on a nil interface value panics
+				}
 			}
 		}
 	case *ast.CallExpr:
@@ -612,8 +842,12 @@ func (f *nilFunc) onExpr(e ast.Expr, fm facts.Formula) {
 		f.assertion(x, fm)
 	case *ast.IndexExpr:
 		f.constIndex(x, fm)
-	case *ast.Ident:
-		// any use of a co-returned value on the error path as an argument
+	case *ast.UnaryExpr:
+		if x.Op == token.AND {
+			if id, ok := ast.Unparen(x.X).(*ast.Ident); ok {
+				delete(f.seeded, f.info.ObjectOf(id)) // address escapes: the callee fills it (errors.As, Decode, ...)
+			}
+		}
 	}
 }
 
@@ -1223,6 +1457,60 @@ func NilAuxiliary(p *core.Program, r *core.Report) {
 		}
 		r.Floor("E2-N5-pre", 2)
 	}
+	// E2-N4-len: PodsFromWorkloadObject returns at least one pod: the slice length is a variable assigned positive constants only
+	if fd := p.Func(core.PkgK8s, "", "PodsFromWorkloadObject"); fd == nil {
+		r.Lost("E2-N4-len", "k8s.PodsFromWorkloadObject")
+	} else {
+		info := fd.Pkg.TypesInfo
+		ast.Inspect(fd.Decl.Body, func(n ast.Node) bool {
+			c, ok := n.(*ast.CallExpr)
+			if !ok || !core.IsBuiltinCall(info, c, "make") || len(c.Args) < 2 {
+				return true
+			}
+			if sl, ok := info.TypeOf(c.Args[0]).Underlying().(*types.Slice); !ok || !core.TypeIs(sl.Elem(), core.PkgK8s, "Pod") {
+				return true
+			}
+			okLen := false
+			why := ""
+			if v, ok := constInt64(info, c.Args[1]); ok {
+				okLen = v >= 1
+			} else if id, ok := ast.Unparen(c.Args[1]).(*ast.Ident); ok {
+				o := info.ObjectOf(id)
+				okLen = true
+				nAssign := 0
+				ast.Inspect(fd.Decl.Body, func(m ast.Node) bool {
+					switch x := m.(type) {
+					case *ast.AssignStmt:
+						for i, l := range x.Lhs {
+							if lid, ok := ast.Unparen(l).(*ast.Ident); ok && info.ObjectOf(lid) == o {
+								nAssign++
+								if i >= len(x.Rhs) {
+									okLen = false
+									continue
+								}
+								if v, ok := constInt64(info, x.Rhs[i]); !ok || v < 1 {
+									okLen = false
+									why = core.ExprStr(x)
+								}
+							}
+						}
+					case *ast.IncDecStmt:
+						if lid, ok := ast.Unparen(x.X).(*ast.Ident); ok && info.ObjectOf(lid) == o {
+							okLen = false
+						}
+					}
+					return true
+				})
+				if nAssign == 0 {
+					okLen = false
+				}
+			}
+			r.Check(okLen, "E2-N4-len", fd.Key()+": returns at least one pod (slice length is a positive constant)", p.Pos(c.Pos()), "the length is assigned the constants 1 or 2 only",
+				"the number of pods generated for a workload is no longer a positive constant ("+why+"): with zero pods insertWorkload passes a nil pod on, and a negative count panics in make")
+			return true
+		})
+		r.Floor("E2-N4-len", 1)
+	}
 	// E2-N7-store: createPodOwnersMap stores only *k8s.WorkloadPeer values
 	if fd := p.Func(core.PkgEval, "PolicyEngine", "createPodOwnersMap"); fd == nil {
 		r.Lost("E2-N7-store", "(*PolicyEngine).createPodOwnersMap")
@@ -1289,4 +1577,16 @@ func NilAuxiliary(p *core.Program, r *core.Report) {
 		}
 		r.Floor("E2-N7-callers", 6)
 	}
+}
+
+func constInt64(info *types.Info, e ast.Expr) (int64, bool) {
+	tv, ok := info.Types[ast.Unparen(e)]
+	if !ok || tv.Value == nil {
+		return 0, false
+	}
+	var v int64
+	if _, err := fmt.Sscanf(tv.Value.ExactString(), "%d", &v); err != nil {
+		return 0, false
+	}
+	return v, true
 }
